@@ -5,6 +5,8 @@ objects) lives through a seeded history of parses - complete, abandoned by the c
 a truncated file, of a v3 file with logs - and of residue writes such as a trace run leaves; the last operation is
 always a complete parse of a v2 file, which is the one judged against the writer's knowledge and an independent
 record codec."""
+import os
+
 from .. import kernel, records, tool, worlds
 from ..disk import SimReader
 from ..runner import digest_of
@@ -17,7 +19,7 @@ CHUNK = 60
 PROBES = ['large_capture', 'record_with_zero_timestamp_and_debugid', 'pid_with_top_bit_set', 'abandoned_parse_before', 'crashed_parse_before', 'v3_with_logs_before', 'residue_before', 'duplicate_tid_in_map',
           'duplicate_pid_in_map', 'empty_map', 'pad_nonzero', 'pad_zero', 'arbitrary_record_bytes', 'name_19_bytes',
           'bytes_after_nul', 'same_kdbuf_object_reused', 'zero_records', 'first_record_leading_zero',
-          'other_request_pending_when_created', 'listings_read_in_turns']
+          'other_request_pending_when_created', 'listings_read_in_turns', 'read_through_gzip_stream', 'same_stream_rewound_and_read_again']
 RULE = ('one run = a history of 1..7 operations on one long-lived table pair (full / abandoned / crashed / v3 parses, residue '
         'writes) followed by the judged complete parse of a seeded v2 file (thread map 0..8 entries with duplicate keys, pad '
         '0..4 KiB, 0..40 records from SimKernel or arbitrary bytes); non-trivial = the history left >= 1 table entry that the '
@@ -92,6 +94,8 @@ def generate(rng, index, tier):
         # finding F11: a first record that begins with zero bytes (statement: "including records that begin with zero bytes")
         judged['zero_lead'] = rng.randint(1, 8)
     scn = {'history': hist, 'judged': judged, 'api': rng.pick(API)}
+    if rng.chance(0.08):
+        scn['stream'] = rng.pick(['gzip', 'twice-raw', 'twice-bytes'])
     if rng.chance(0.12):
         # requests are lazy: another request on the same tables is created before or after the judged one is created and
         # is consumed completely before the judged one is pulled for the first time (the schedule of first pulls is seeded)
@@ -130,16 +134,17 @@ def execute(scn):
         bump('probe:same_kdbuf_object_reused')
 
     def start(data):
+        rd = SimReader(data) if isinstance(data, (bytes, bytearray)) else data       # bytes, or a stream the caller opened
         if api == 'pk':
-            return pk.kevents(SimReader(data))
+            return pk.kevents(rd)
         if api == 'kd_new':
-            return tool.kdbuf_mod.KdBufParser(tp, pn).parse(SimReader(data))
+            return tool.kdbuf_mod.KdBufParser(tp, pn).parse(rd)
         if api == 'kd_noargs':
             state['kd'] = tool.kdbuf_mod.KdBufParser()      # every object owns its tables
-            return state['kd'].parse(SimReader(data))
+            return state['kd'].parse(rd)
         if api == 'pk_rebind':
-            return pk.kevents(SimReader(data))
-        return kd_same.parse(SimReader(data))
+            return pk.kevents(rd)
+        return kd_same.parse(rd)
     hist = []
     shape = []
     left_residue = False
@@ -224,6 +229,30 @@ def execute(scn):
         bump('probe:first_record_leading_zero')
     viols = []
     viols_pre = None
+    cleanup = []
+    if scn.get('stream') == 'gzip' and not scn.get('pending'):
+        # the caller reads a compressed dump through gzip.open(): a seekable stream whose fileno() is the COMPRESSED file's
+        import gzip
+        import tempfile
+        td = tempfile.mkdtemp(prefix='c02gz')
+        pth = os.path.join(td, 'dump.gz')
+        with gzip.open(pth, 'wb') as f_:
+            f_.write(data)
+        gz = gzip.open(pth, 'rb')
+        cleanup.append((gz, td))
+        bump('probe:read_through_gzip_stream')
+        data_stream = gz
+    elif scn.get('stream') in ('twice-raw', 'twice-bytes') and not scn.get('pending'):
+        # the same stream object was already read to its end by an earlier request on these tables and is rewound for this one
+        import gc
+        from ..disk import SimRawReader
+        data_stream = SimRawReader(data) if scn['stream'] == 'twice-raw' else SimReader(data)
+        common.drain(lambda: start(data_stream))
+        gc.collect()
+        data_stream.seek(0)
+        bump('probe:same_stream_rewound_and_read_again')
+    else:
+        data_stream = None
     pending = scn.get('pending', []) if api in ('pk', 'kd_new', 'kd_same') else []
     waiting = []
 
@@ -278,7 +307,14 @@ def execute(scn):
         else:
             items, exc = common.drain(judged_gen)
     else:
-        items, exc = common.drain(lambda: start(data))
+        items, exc = common.drain(lambda: start(data if data_stream is None else data_stream))
+    for st_, td_ in cleanup:
+        try:
+            st_.close()
+        except Exception:
+            pass
+        import shutil
+        shutil.rmtree(td_, ignore_errors=True)
     if api == 'kd_noargs' and state['kd'] is not None:
         judged_kd = state['kd']
         tp, pn = judged_kd.threads_pids, judged_kd.pids_names
